@@ -7,15 +7,15 @@ ids = sorted(d for d in os.listdir('/verif/seeded') if re.fullmatch(r'[RS]\d+', 
 for sid in ids:
     pd = '/verif/seeded/%s/patch.diff' % sid
     if not os.path.exists(pd): continue
-    shutil.rmtree('/tmp/kt/vs', ignore_errors=True); os.makedirs('/tmp/kt/vs')
-    shutil.copytree('/repo/src', '/tmp/kt/vs/src')
-    r = subprocess.run(['patch', '-p1', '-s', '-i', pd], cwd='/tmp/kt/vs', capture_output=True, text=True)
+    shutil.rmtree('/tmp/tiescan_vs', ignore_errors=True); os.makedirs('/tmp/tiescan_vs')
+    shutil.copytree('/repo/src', '/tmp/tiescan_vs/src')
+    r = subprocess.run(['patch', '-p1', '-s', '-i', pd], cwd='/tmp/tiescan_vs', capture_output=True, text=True)
     if r.returncode != 0:
         res[sid] = {"error": "patch does not apply to src only: " + (r.stdout + r.stderr)[:200]}; print(sid, res[sid], flush=True); continue
-    txt, errs = kernelgen.translate('/tmp/kt/vs/src')
+    txt, errs = kernelgen.translate('/tmp/tiescan_vs/src')
     open(LW + '/AnyVecModel/Gen/Kernel.lean', 'w').write(txt)
     r = subprocess.run(['lake', 'build'], cwd=LW, capture_output=True, text=True)
     failed = sorted(set(re.findall(r"^- (AnyVecModel\.\S+)", r.stdout, flags=re.M)))
     res[sid] = {"translate_errors": errs, "failed_modules": failed}
     print(sid, json.dumps(res[sid]), flush=True)
-json.dump(res, open('/tmp/kt/tiescan.json', 'w'), indent=1)
+json.dump(res, open('/verif/selftest/tiescan.json', 'w'), indent=1)
